@@ -186,6 +186,7 @@ func (t *Transport) encodeToWithContextTakeover(wr io.Writer, bs []byte) (int, e
 	t.writeWindowBufMu.Lock()
 	defer t.writeWindowBufMu.Unlock()
 
+	hasDict := t.writeWindowBuf.Len() > 0
 	fwr, err := flate.NewWriterDict(buf, t.compressConfig.Level, t.writeWindowBuf.Bytes())
 	if err != nil {
 		return 0, err
@@ -196,6 +197,22 @@ func (t *Transport) encodeToWithContextTakeover(wr io.Writer, bs []byte) (int, e
 	}
 	if err := fwr.Close(); err != nil {
 		return 0, err
+	}
+	// compress/flate emits the preset dictionary together with the data when the first block of a
+	// NewWriterDict stream becomes a stored block (BTYPE=00). Such a message is re-encoded without
+	// dictionary; the stream stays valid for a peer that presets one.
+	if hasDict && buf.Len() > 0 && buf.Bytes()[0]&0x06 == 0 {
+		buf.Reset()
+		fwr, err = flate.NewWriter(buf, t.compressConfig.Level)
+		if err != nil {
+			return 0, err
+		}
+		if _, err := fwr.Write(bs); err != nil {
+			return 0, err
+		}
+		if err := fwr.Close(); err != nil {
+			return 0, err
+		}
 	}
 	if t.compressConfig.WindowSize() < t.writeWindowBuf.Len() {
 		t.writeWindowBuf.Next(t.writeWindowBuf.Len() - t.compressConfig.WindowSize())
